@@ -78,7 +78,7 @@ SPEC = dict(
                 "cross-thread orders that the OS scheduler plus the delay plans actually produced (reported as a count of distinct orders and of "
                 "racy windows hit), within the controller regime of the statement (one cont per received event, re-run only after everything "
                 "delivered was received, channel capacity 1 as in main.rs and the tests)."),
-    level_note=("Trusted: the plain listener-VM parse as the expected entry sequence, hook H4's log (sequence numbers taken under the log's lock), "
+    level_note=("Trusted: a plain listener-less VM parse observed through hook H3's VmRuleEnter events as the expected entry sequence (a listener-recorded trace only for the multi-megabyte slow-parse inputs, whose shape is cross-checked on a short input), hook H4's log (sequence numbers taken under the log's lock), "
                 "the ~150-line offline checker and the hang classifier in harness/mon_dbg/src/c17.rs. Out of reach and not claimed: std::thread::park "
                 "may wake spuriously by contract, but the Linux futex parker never does, so an execution in which a spurious wake-up lets the parser "
                 "run past a breakpoint cannot be produced here; interleavings that neither the scheduler nor the delay plan produced; a re-run while "
@@ -98,7 +98,7 @@ SPEC = dict(
                 "hook H3, not from a listener), and the CLI dropping the previous receiver before context.run (cli_report_mismatch `Error: Previous parsing "
                 "execution panic` at every restart typed while stopped: first at CLI history 1-12 of every shard). Thorough tier: the same binary built with -Zsanitizer=thread (-Zbuild-std) runs ~2,000 histories as a "
                 "secondary monitor for data races in the debugger's shared state and std's park/channel."),
-    technique="runtime monitoring: schedule stress with seeded delay injection at cfg-guarded hook points + offline trace checker over a globally sequenced two-thread event log (plain listener-VM parse as oracle); ThreadSanitizer as a secondary layer in the thorough tier",
+    technique="runtime monitoring: schedule stress with seeded delay injection at cfg-guarded hook points + offline trace checker over a globally sequenced two-thread event log (plain VM parse observed through the VM's enter hook as oracle); a spawned command-line front end judged by the same model; ThreadSanitizer as a secondary layer in the thorough tier",
     assumptions=[
         "controller regime of the statement: cont once per received Breakpoint event; run again only when every delivered event was received (stopped with no cont outstanding, or after the final event); a new sync_channel(1) per run with the old receiver alive until run returns, as debugger/src/main.rs does",
         "breakpoint edits THAT CAN CHANGE THE OUTCOME are made only before run, between a received Breakpoint event and its cont, or after the final event, so the set in force at each rule entry is determined by the controller's own record order; while the parse is running only outcome-neutral commands are issued (list_breakpoints, add and delete of a name that is not a rule and that no parse enters)",
